@@ -19,7 +19,7 @@ static void sb_ch(sb_t *s, char c) { sb_put(s, &c, 1); }
 #define NVAR 8
 static struct { char k[16]; char v[128]; int set; } vars[NVAR];
 static int dont_care;                      /* the input uses a construct whose value the statement leaves open */
-static int put_seen, store_uncertain, tmpdir_odd, len_unknown;      /* a %put in an expansion that was cut at the limit may or may not have happened */
+static int put_seen, store_uncertain, tmpdir_odd, len_unknown, quoted_word_seen;      /* a %put in an expansion that was cut at the limit may or may not have happened */
 static const char *ref_getvar(const char *k) { for (int i = 0; i < NVAR; i++) if (vars[i].set && !strcmp(vars[i].k, k)) return vars[i].v; return NULL; }
 static void ref_putvar(const char *k, const char *v)
 {
@@ -35,9 +35,19 @@ static int words(const char *s, char w[4][128])
         size_t k = 0;
         while (*s && isspace((unsigned char)*s)) s++;
         if (!*s) break;
-        if (*s == '"' || *s == '\'') { dont_care = 1; return 0; }          /* quoted words inside arguments: not modelled */
         if (n >= 4) { dont_care = 1; return n; }
-        while (*s && !isspace((unsigned char)*s) && k < 127) w[n][k++] = *s++;
+        if (*s == '"' || *s == '\'') {
+            /* a quoted word, as the library's word splitter sees it: everything up to the matching quote, quotes dropped.
+               Backslashes, the other kind of quote inside, a missing closing quote or text glued to it: not modelled */
+            char q = *s++;
+            while (*s && *s != q && k < 127) { if (*s == '\\' || *s == '"' || *s == '\'') { dont_care = 1; len_unknown = 1; } w[n][k++] = *s++; }
+            if (*s != q || (s[1] && !isspace((unsigned char)s[1]))) { dont_care = 1; len_unknown = 1; return 0; }
+            s++;
+            w[n++][k] = 0;
+            quoted_word_seen = 1;
+            continue;
+        }
+        while (*s && !isspace((unsigned char)*s) && k < 127) { if (*s == '"' || *s == '\'') { dont_care = 1; len_unknown = 1; } w[n][k++] = *s++; }
         if (*s && !isspace((unsigned char)*s)) { dont_care = 1; len_unknown = 1; while (*s && !isspace((unsigned char)*s)) s++; }    /* words beyond the model's 127 characters: not modelled */
         w[n++][k] = 0;
     }
@@ -271,8 +281,11 @@ static void gen_piece(rng_t *r, int depth, int inside_args)
     else if (c < 57) ga("~");
     else if (c < 62 && !inside_args) { ga("'"); for (int i = rng_range(r, 0, 3); i > 0; i--) { int q = (int)rng_below(r, 6); if (q == 0) ga("~"); else if (q == 1) ga("$V1"); else if (q == 2) ga("\\n"); else if (q == 3) ga("\\'"); else ga("%s", plain[rng_below(r, 10)]); } ga("'"); }
     else if (c < 66 && !inside_args) { ga("\""); for (int i = rng_range(r, 0, 3); i > 0; i--) { int q = (int)rng_below(r, 5); if (q == 0) ga("~"); else if (q == 1) ga("$V1"); else if (q == 2) ga("\\t"); else ga("%s", plain[rng_below(r, 10)]); } ga("\""); }
-    else if (c < 72) ga("%%put(k%u %s%u)", rng_below(r, 4), rng_chance(r, 1, 4) ? "$V1" : "v", rng_below(r, 10));
-    else if (c < 80) { if (rng_chance(r, 1, 3)) ga("%%get(k%u d%u)", rng_below(r, 5), rng_below(r, 10)); else ga("%%get(k%u)", rng_below(r, 5)); }
+    else if (c < 72) {
+        if (rng_chance(r, 1, 5)) { static const char *qv[] = { "''", "\"\"", "'two words'", "\"d q\"", "'$V1'", "'~'", "' '" }; ga("%%put(k%u %s)", rng_below(r, 4), qv[rng_below(r, 7)]); }     /* quoted values, the empty one included */
+        else ga("%%put(k%u %s%u)", rng_below(r, 4), rng_chance(r, 1, 4) ? "$V1" : "v", rng_below(r, 10));
+    }
+    else if (c < 80) { if (rng_chance(r, 1, 3)) ga("%%get(k%u d%u)", rng_below(r, 5), rng_below(r, 10)); else if (rng_chance(r, 1, 6)) ga("%%get(k%u 'a default')", rng_below(r, 5)); else ga("%%get(k%u)", rng_below(r, 5)); }
     else if (c < 83) ga(rng_chance(r, 1, 2) ? "%%version()" : "%%appname()");
     else if (c < 86) { static const char *rw[] = { "abc", "x", "a=b" }; const char *w = rw[rng_below(r, 3)]; ga("%%random(%s %s %s)", w, w, w); }
     else if (c < 90 && depth < 3) { ga("%%get(k%u ", rng_below(r, 5)); gen_piece(r, depth + 1, 1); ga(")"); }
